@@ -41,4 +41,9 @@ def run(repo, rep, tier):
   for i in sub.instances:
     i.rule = 'R6/' + i.rule.split('/', 1)[1]
     rep.instances.append(i)
+  sub = type(rep)(rep.prop, rep.tier, rep.repo)
+  c08.r4_reads_do_not_mutate(repo, sub, 'tbr.TBR')
+  for i in sub.instances:
+    i.rule = 'R1/read-does-not-mutate'
+    rep.instances.append(i)
   rep.assume('level in [0, 1] (guard in TBR.summary), tails in {1, 2} (guard); scipy.stats.t.ppf is monotone in p')
